@@ -12,6 +12,7 @@ import (
 	"os"
 	"runtime"
 	"runtime/debug"
+	"strings"
 	"sync/atomic"
 	"testing"
 	"testing/cryptotest"
@@ -33,6 +34,8 @@ var (
 	flagTapes   = flag.Bool("vsim.tapes", false, "include the consumed tapes in every result")
 	flagMode    = flag.String("vsim.mode", "search", "search | minimize | determinism")
 	flagParams  = flag.String("vsim.params", "", "JSON object of scenario parameters")
+	flagOwn     = flag.String("vsim.own", "", "comma-separated property ids whose violations stop the worker (default: all)")
+	flagKnown   = flag.String("vsim.known", "", "comma-separated PROP:class pairs that are recorded known findings")
 	flagWatchdog = flag.Duration("vsim.watchdog", 120*time.Second, "wall-clock limit for one run")
 )
 
@@ -86,6 +89,11 @@ func TestVsim(t *testing.T) {
 		t.Skip("no -vsim.prop")
 	}
 	debug.SetGCPercent(400)
+	for _, k := range strings.Split(*flagKnown, ",") {
+		if k != "" {
+			knownClasses[k] = true
+		}
+	}
 	out := os.Stdout
 	if *flagOut != "" {
 		f, err := os.Create(*flagOut)
@@ -155,11 +163,23 @@ func TestVsim(t *testing.T) {
 				fmt.Fprintln(os.Stderr, l)
 			}
 		}
-		if res.Violation != nil && *flagStop {
+		if res.Violation != nil && *flagStop && ownsViolation(res.Violation.Prop) {
 			break
 		}
 		seed += *flagStride
 	}
+}
+
+func ownsViolation(p string) bool {
+	if *flagOwn == "" {
+		return true
+	}
+	for _, o := range strings.Split(*flagOwn, ",") {
+		if o == p {
+			return true
+		}
+	}
+	return false
 }
 
 func replayMain(t *testing.T, enc *json.Encoder) {
